@@ -295,12 +295,15 @@ def vauLoop : Twe → Int → List TxOut → Except Refusal (Twe × Int)
       | some e => vauLoop (t.addOutput e.2) (tot + o.value) os
 
 /-- `valueAfterAccountUpdate` -/
-def valueAfterAccountUpdate (value : Int) (outputs : List TxOut) (wt : Nat) (rate : Int) : Except Refusal Int := do
-  let t ← addBaseWeight {} wt
-  let (t, total) ← vauLoop t 0 outputs
-  let fee := feeForWeight rate t.weight
-  let nv := value - total - fee
-  if nv < MinAccountValue then .error .belowMin else .ok nv
+def valueAfterAccountUpdate (value : Int) (outputs : List TxOut) (wt : Nat) (rate : Int) : Except Refusal Int :=
+  match addBaseWeight {} wt with
+  | .error r => .error r
+  | .ok t0 =>
+    match vauLoop t0 0 outputs with
+    | .error r => .error r
+    | .ok (t, total) =>
+      let nv := value - total - feeForWeight rate t.weight
+      if nv < MinAccountValue then .error .belowMin else .ok nv
 
 /-! ## `validateAccountExpiry`, `validateAccountValue` -/
 
@@ -444,17 +447,19 @@ def sanityInputs (a : Account) (wt : Nat) : List TxIn → Int → Nat → Except
 def fullWeight (tx : Tx) (witness : Nat) : Nat := tx.strippedSize * witnessScaleFactor + 2 + witness
 
 /-- `sanityCheckAccountSpendTx` -/
-def sanityCheck (a : Account) (tx : Tx) (wt : Nat) : Except Refusal Unit := do
-  if tx.inputs.isEmpty then .error .noInputs
-  if tx.outputs.isEmpty then .error .noOutputs
-  checkOutputRange 0 tx.outputs
-  if hasDupInputs (tx.inputs.map (·.prev)) then .error .duplicateInputs
-  if tx.outputs.any isDustOutput then .error .dustOutput
-  let (inTotal, w) ← sanityInputs a wt tx.inputs 0 0
-  let outTotal := sumValues tx.outputs
-  if inTotal < outTotal then .error .outputsExceedInputs
-  let feesPaid := inTotal - outTotal
-  if feesPaid < feeForWeight FeePerKwFloor (fullWeight tx w) then .error .feeBelowRelay
+def sanityCheck (a : Account) (tx : Tx) (wt : Nat) : Except Refusal Unit :=
+  if tx.inputs.isEmpty then .error .noInputs else
+  if tx.outputs.isEmpty then .error .noOutputs else
+  match checkOutputRange 0 tx.outputs with
+  | .error r => .error r
+  | .ok () =>
+  if hasDupInputs (tx.inputs.map (·.prev)) then .error .duplicateInputs else
+  if tx.outputs.any isDustOutput then .error .dustOutput else
+  match sanityInputs a wt tx.inputs 0 0 with
+  | .error r => .error r
+  | .ok (inTotal, w) =>
+  if inTotal < sumValues tx.outputs then .error .outputsExceedInputs else
+  if inTotal - sumValues tx.outputs < feeForWeight FeePerKwFloor (fullWeight tx w) then .error .feeBelowRelay else
   .ok ()
 
 /-! ## `spendAccount` and the effect trace -/
@@ -499,10 +504,11 @@ def findIdx (p : α → Bool) : List α → Nat
   | [] => 0
   | x :: xs => if p x then 0 else findIdx p xs + 1
 
-/-- `spendAccount` (with `signSpendTx`, `addAccountSpendSignature`, `getAuctioneerSig`, `maybeBroadcastTx` folded in;
-signatures themselves are not modelled) -/
-def spendAccount (so : ScriptOf) (a : Account) (action : Action) (tx : Tx) (wt : Nat) (mods : List Modifier)
-    (best : UInt32) (f : Faults) : OpResult :=
+/-- first half of `spendAccount` up to and including the sanity check of `signSpendTx`: locate the re-created
+account output (`OutPointModifier`), choose the lock time by witness type, check the transaction.  Nothing has
+left the manager yet. -/
+def spendPrepare (so : ScriptOf) (a : Account) (action : Action) (tx : Tx) (wt : Nat) (mods : List Modifier)
+    (best : UInt32) : Except Refusal (Option Nat × List Modifier × Tx) :=
   -- locate the re-created account output
   let located : Except Refusal (Option Nat × List Modifier) :=
     if action ≠ .close then
@@ -511,40 +517,50 @@ def spendAccount (so : ScriptOf) (a : Account) (action : Action) (tx : Tx) (wt :
       | some idx => .ok (some idx, mods ++ [.outPoint idx])
     else .ok (none, mods)
   match located with
-  | .error r => refuse r
+  | .error r => .error r
   | .ok (outIdx, mods) =>
-  -- lock time by witness type
-  let lock : Except Refusal Nat :=
-    if wt = wt_expiryWitness ∨ wt = wt_expiryTaproot then
-      if action ≠ .close then .error .expiredNoModify else .ok best.toNat
-    else if wt = wt_multiSigWitness ∨ wt = wt_muSig2Taproot then .ok 0
-    else .error .unknownWitness
-  match lock with
-  | .error r => refuse r
-  | .ok lockTime =>
-  let tx := { tx with lockTime := lockTime }
-  -- signSpendTx: sanity check first
-  match sanityCheck a tx wt with
-  | .error r => refuse r
-  | .ok () =>
-  -- the auctioneer's signature is requested on the cooperative paths only
+    -- lock time by witness type
+    let lock : Except Refusal Nat :=
+      if wt = wt_expiryWitness ∨ wt = wt_expiryTaproot then
+        if action ≠ .close then .error .expiredNoModify else .ok best.toNat
+      else if wt = wt_multiSigWitness ∨ wt = wt_muSig2Taproot then .ok 0
+      else .error .unknownWitness
+    match lock with
+    | .error r => .error r
+    | .ok lockTime =>
+      let tx := { tx with lockTime := lockTime }
+      -- signSpendTx: sanity check first
+      match sanityCheck a tx wt with
+      | .error r => .error r
+      | .ok () => .ok (outIdx, mods, tx)
+
+/-- second half of `spendAccount`: request the auctioneer's signature (cooperative paths only), write the store,
+broadcast – in this order (`addAccountSpendSignature`/`getAuctioneerSig`, `Store.UpdateAccount`,
+`maybeBroadcastTx`; signatures themselves are not modelled) -/
+def spendCommit (a : Account) (wt : Nat) (outIdx : Option Nat) (mods : List Modifier) (tx : Tx)
+    (best : UInt32) (f : Faults) : OpResult :=
+  let coop : Bool := wt = wt_multiSigWitness ∨ wt = wt_muSig2Taproot
   let acctIn := findIdx (fun i => i.prev = a.outPoint) tx.inputs
   let modifyEv : List Effect :=
-    if wt = wt_multiSigWitness ∨ wt = wt_muSig2Taproot then
+    if coop then
       match outIdx with
       | none => [.auctioneerModify [] tx.outputs none]
       | some oi => [.auctioneerModify ((removeAt tx.inputs acctIn).map (·.prev)) (removeAt tx.outputs oi)
                       (some (applyMods a mods))]
     else []
-  if (wt = wt_multiSigWitness ∨ wt = wt_muSig2Taproot) ∧ f.auctioneer then
-    ⟨some .auctioneerFail, modifyEv, none, none⟩
-  else
+  if coop ∧ f.auctioneer then ⟨some .auctioneerFail, modifyEv, none, none⟩ else
   let mods := mods ++ [.heightHint best, .latestTx]
   if f.store then ⟨some .storeFail, modifyEv, none, none⟩ else
   let stored := applyMods a mods
-  let tr := modifyEv ++ [.storeWrite stored]
-  if f.publish then ⟨some .publishFail, tr ++ [.publish tx], none, none⟩ else
-  ⟨none, tr ++ [.publish tx], some stored, some tx⟩
+  if f.publish then ⟨some .publishFail, modifyEv ++ [.storeWrite stored, .publish tx], none, none⟩ else
+  ⟨none, modifyEv ++ [.storeWrite stored, .publish tx], some stored, some tx⟩
+
+/-- `spendAccount` -/
+def spendAccount (so : ScriptOf) (a : Account) (action : Action) (tx : Tx) (wt : Nat) (mods : List Modifier)
+    (best : UInt32) (f : Faults) : OpResult :=
+  match spendPrepare so a action tx wt mods best with
+  | .error r => refuse r
+  | .ok (outIdx, mods', tx') => spendCommit a wt outIdx mods' tx' best f
 
 /-! ## the four operations -/
 
@@ -626,13 +642,17 @@ def acctInputFee (wt : Nat) (rate : Int) : Except Refusal Int :=
 
 /-- `inputsForDeposit` after `FundPsbt` returned `fd` (`none` = FundPsbt failed) -/
 def inputsForDeposit (so : ScriptOf) (a : Account) (newOut : TxOut) (deposit : Int) (wt : Nat) (rate : Int)
-    (fd : Option Funded) : Except Refusal Tx := do
-  let fee ← acctInputFee wt rate
-  match fd with
-  | none => .error .fundFail
-  | some fd =>
-    let outs ← fixupOutputs fd.changeIdx newOut.script (deposit + fee) newOut.value 0 fd.outputs
-    .ok { inputs := sortBy inLt (fd.inputs ++ [a.txIn so]), outputs := sortBy outLt outs, lockTime := 0 }
+    (fd : Option Funded) : Except Refusal Tx :=
+  match acctInputFee wt rate with
+  | .error r => .error r
+  | .ok fee =>
+    match fd with
+    | none => .error .fundFail
+    | some fd =>
+      match fixupOutputs fd.changeIdx newOut.script (deposit + fee) newOut.value 0 fd.outputs with
+      | .error r => .error r
+      | .ok outs =>
+        .ok { inputs := sortBy inLt (fd.inputs ++ [a.txIn so]), outputs := sortBy outLt outs, lockTime := 0 }
 
 /-- `DepositAccount` -/
 def deposit (so : ScriptOf) (a : Account) (amount : Int) (rate : Int) (best expiryHeight : UInt32)
